@@ -1175,6 +1175,14 @@ class Evaluator:
                         st2.ev('wr', loc, ('rng-state', k), site_of(n, st2), 'rng')
                     yield st2, ('randdev', k)
                 return
+        if name == 'operator()' and 'std::function<' in ((qt(a0) or '') + (a0.get('type', {}).get('desugaredQualType') or '')):
+            # a caller-installed callback (std::function member / parameter): user code, not the library's behaviour; it gets copies or
+            # const references of what it is shown and cannot reach the container except through the public interface
+            for st2, ts in self.eval_args(args, st):
+                k = st2.fresh()
+                st2.ev('usercall', ts[0], site_of(n, st2))
+                yield st2, ('ucall', k)
+            return
         yield st, self.unknown(st, 'operator:%s on %s' % (name, t0), n)
 
     def adv(self, st, v, d, tc=None):
